@@ -180,12 +180,20 @@ def run_group(gs):
                 shared = rs.get("share_params_with")
                 params = solvers[shared].params if shared is not None else Params(**pk)
                 rec.run = run
-                solver = TracedSolver(
-                    rp, params, rec, run=run, algkey=rs.get("algkey", 1), twin=rs.get("twin", "none"),
-                    obj_id=len(solvers) + 1, clock_tick=tick, clock_schedule=sched,
-                    record_callback=rs.get("record_callback", True),
-                    extra_callbacks=[_Observer() for _ in range(rs.get("observers", 0))],
-                )
+                try:
+                    solver = TracedSolver(
+                        rp, params, rec, run=run, algkey=rs.get("algkey", 1), twin=rs.get("twin", "none"),
+                        obj_id=len(solvers) + 1, clock_tick=tick, clock_schedule=sched,
+                        record_callback=rs.get("record_callback", True),
+                        extra_callbacks=[_Observer() for _ in range(rs.get("observers", 0))],
+                    )
+                except MachineryError:
+                    raise
+                except Exception as e:  # noqa: e.g. "Equilibration failed to converge" while computing a scaling
+                    info["runs"].append({"run": run, "status": "construct-raise:" + type(e).__name__ + ":" + str(e)[:60],
+                                         "n": int(prob.num_vars), "m": int(prob.num_cons)})
+                    info["construct_failed"] = True
+                    break
                 solvers[run] = solver
             solver.lin_fault = make_lin_fault(rs.get("lin_fault"))
             solver._wellposed = bool(rs.get("wellposed", False))
